@@ -221,6 +221,13 @@ package badger
 // NewIterator merges, in this order of precedence, the transaction's own pending writes, the
 // memtables newest first and the levels, all in the requested direction, and reads at the
 // transaction's read timestamp.
+// NewKeyIterator: an iterator over every version of exactly one key (C05: the documented contract
+// of a key iterator: all versions, prefix is the key itself).
+//@ func (*Txn).NewKeyIterator
+//@   props C05
+//@   light
+//@   assert[all-versions-of-exactly-this-key] before call NewIterator : arg1.AllVersions && arg1.prefixIsKey && bytes(arg1.Prefix) == bytes(key)
+
 //@ func (*Txn).NewIterator
 //@   props C04 C01 C05 C15
 //@   light
@@ -863,7 +870,7 @@ package badger
 // fresh one is installed; every table of every level is deleted in the MANIFEST before it is
 // removed from its level and loses its file; then the value log files go, and file ids restart.
 //@ func (*DB).dropAll
-//@   props C29
+//@   props C29 C23
 //@   light
 //@   assert[writes-blocked-first] before call stopCompactions : called(prepareToDrop#1) && ret1(prepareToDrop#1) == nil
 //@   assert[memtables-under-lock] before call newMemTable : held(db.lock) && len(db.imm) == 0
